@@ -532,6 +532,11 @@ def h_reject_entry_points(ctx):
         ("inside on a region with S > N", lambda: vd.inside((e, n), (0, 1, 1, 0))),
         ("block_split on a region with W > E", lambda: vd.block_split((e, n), shape=(1, 1), region=(1, 0, 0, 1))),
         ("gridder.grid on a region with S > N", lambda: fitted.grid(region=(0, 1, 1, 0), shape=(2, 2))),
+        ("expanding_window: an extra coordinate longer than easting/northing", lambda: vd.expanding_window((e, n, d4), center=(1.0, 1.0), sizes=[1.0])),
+        ("rolling_window: an extra coordinate longer than easting/northing", lambda: vd.rolling_window((e, n, d4), size=1.0, shape=(2, 2))),
+        ("block_split: an extra coordinate longer than easting/northing", lambda: vd.block_split((e, n, d4), shape=(1, 2))),
+        ("BlockReduce.filter: an extra coordinate longer than easting/northing", lambda: vd.BlockReduce(_mean(ctx), shape=(1, 1)).filter((e, n, d4), d3)),
+        ("Spline.fit: an extra coordinate longer than easting/northing", lambda: vd.Spline().fit((e, n, d4), d3)),
         ("region with three entries", lambda: vd.grid_coordinates((0, 1, 0), shape=(2, 2))),
         ("region with five entries", lambda: vd.inside((e, n), (0, 1, 0, 1, 2))),
     )
@@ -566,6 +571,6 @@ HARNESSES = [
         bounds="coordinates, data (1-2 components) and weights (0-2) of rank 1-2 with every dimension a symbolic integer in 1..3",
         stubs=["arrays reduced to their (symbolic) shape"],
     ),
-    Harness("reject_entry_points", h_reject_entry_points, {"quick": [{}]}, bounds="34 public entry points (estimator fit/score/filter, splitters, cross-validation, coordinate generators, region consumers), each given one inconsistency: a data/weight/coordinate array one element longer, both or neither of shape/size and spacing, a region with W > E, S > N or the wrong number of entries; symbolic data values", extra_globals=_globals),
+    Harness("reject_entry_points", h_reject_entry_points, {"quick": [{}]}, bounds="39 public entry points (estimator fit/score/filter, splitters, cross-validation, coordinate generators, region consumers), each given one inconsistency: a data/weight/coordinate array one element longer, both or neither of shape/size and spacing, a region with W > E, S > N or the wrong number of entries; symbolic data values", extra_globals=_globals),
     Harness("reject_misc", h_reject_misc, lambda tier, seed: [{"rank": 1}, {"rank": 2}], bounds="three coordinate arrays of symbolic shapes (rank 1-2, dims 1..3); component-count, shape/spacing and region errors with symbolic data and regions", extra_globals=_globals),
 ]
